@@ -568,17 +568,23 @@ class SimBackend(object):
             solver.timeLimit = safety
             if isinstance(getattr(solver, 'optionsDict', None), dict):
                 solver.optionsDict['timeLimit'] = safety
+        import time as _rt
+        t_real = _rt.time()
         try:
             st = _REAL_ACTUAL_SOLVE(solver, lp, **kw)
         finally:
+            t_real = _rt.time() - t_real
             if saved_obj is not None:
                 lp.objective = saved_obj
             if capped:
                 solver.timeLimit = user_tl
                 if isinstance(getattr(solver, 'optionsDict', None), dict):
                     solver.optionsDict['timeLimit'] = user_tl
+        # (the real clock is read here only to classify the real solve; it
+        # never enters the event log)
         if capped and (lp.sol_status == pulp.LpSolutionIntegerFeasible or
-                       lp.status == pulp.LpStatusNotSolved):
+                       lp.status == pulp.LpStatusNotSolved or
+                       t_real >= 0.8 * safety):
             rec['backend_fault'] = 'real-cbc-safety-limit'
             self.fired['real-cbc-safety-limit'] = self.fired.get(
                 'real-cbc-safety-limit', 0) + 1
